@@ -1,7 +1,7 @@
 """C03 - output annotations are well-formed and reproduce reference transcripts verbatim."""
 from hypothesis import strategies as st
 
-from vlib import parse, pipeline, scenario as S
+from vlib import build, parse, pipeline, reads as R, scenario as S
 from vlib.refmodel import gtfcheck
 from vlib.shard import Stage, case_hash
 
@@ -95,7 +95,7 @@ def evaluate(case, ctx):
             ctx.violation(sig, det, case)
         ctx.cls("annotated" if annotated else "annotation-free", "novel>0" if n_novel else "novel=0",
                 "ref>0" if n_ref else "ref=0")
-        if (annotated and n_novel and n_ref) or (not annotated and n_novel >= 2):
+        if (annotated and n_novel and n_ref) or (not annotated and n_novel >= 2) or (sc.get("edges") and n_novel):
             ctx.mark_nontrivial(case_hash(case))
             ctx.sample(pipeline.summarize(sc, {"novel_reported": n_novel, "reference_reported": n_ref}))
     finally:
@@ -118,7 +118,73 @@ def split_scenarios(draw):
     return sc
 
 
+@st.composite
+def edge_scenarios(draw):
+    """Transcripts that touch the ends of a chromosome: reads aligned up to the last (first) bases with a soft clip
+    that holds a few other bases before the polyA tail (after the polyT head), mono-exonic and spliced, with and
+    without annotation."""
+    src = S.DrawSrc(draw)
+    annotated = src.bool(0.5)
+    L = src.int(4000, 9000)
+    reads, genes, overrides = [], [], []
+    k = 0
+    for side in ("right", "left"):
+        if not src.bool(0.8):
+            continue
+        spliced = src.bool(0.5)
+        off = src.int(0, 6)
+        junk = "".join(src.choice("CG") for _ in range(src.int(0, 5)))
+        tail = src.int(22, 32)
+        if side == "right":
+            end = L - off
+            chain = [[end - src.int(300, 700), end]]
+            if spliced:
+                a = chain[0][0] - src.int(300, 600)
+                chain = [[a - src.int(150, 300), a]] + chain
+            strand = "+"
+        else:
+            start = 1 + off
+            chain = [[start, start + src.int(300, 700)]]
+            if spliced:
+                a = chain[0][1] + src.int(300, 600)
+                chain = chain + [[a, a + src.int(150, 300)]]
+            strand = "-"
+        overrides += build.splice_overrides("chr1", chain, strand)
+        if annotated and src.bool(0.5):
+            genes.append({"id": "E" + side, "chr": "chr1", "strand": strand, "canon": "canon",
+                          "transcripts": [{"id": "ET" + side, "exons": [list(e) for e in chain]}]})
+        for _ in range(src.int(3, 7)):
+            k += 1
+            r = R.make_read("e%d" % k, "chr1", [list(e) for e in chain], flag=16 if strand == "-" else 0, mapq=60)
+            if side == "right":
+                r["cg"] = r["cg"] + [[4, len(junk) + tail]]
+                r["sr"] = junk + "A" * tail
+            else:
+                r["cg"] = [[4, len(junk) + tail]] + r["cg"]
+                r["sl"] = "T" * tail + junk
+            reads.append(r)
+    # an ordinary gene in the middle keeps the annotation non-empty
+    mid = S.gen_chain(src, L // 2 - 600, 3, exon_len=(100, 200), intron_len=(150, 300))
+    mstrand = src.choice(["+", "-"])
+    overrides += build.splice_overrides("chr1", mid, mstrand)
+    if annotated:
+        genes.append({"id": "GM", "chr": "chr1", "strand": mstrand, "canon": "canon",
+                      "transcripts": [{"id": "TM", "exons": mid}]})
+    for _ in range(src.int(2, 5)):
+        k += 1
+        reads.append(S.exact_read("m%d" % k, "chr1", mstrand, mid, polya=25))
+    sc = {"chroms": [["chr1", L, src.int(1, 10 ** 6)]], "genes": genes, "overrides": overrides, "reads": reads,
+          "nfiles": 1, "gtf": {"gene_records": True, "transcript_records": True},
+          "opts": ["--data_type", src.choice(["pacbio_ccs", "nanopore"]), "--no_gzip", "--threads", "1",
+                   "--report_novel_unspliced", "true"]}
+    if src.bool(0.3):
+        sc["opts"] += ["--polya_requirement", "never"]
+    sc["edges"] = True
+    return sc
+
+
 def stages(tier):
     q = tier == "quick"
     return [Stage("models", "hyp", evaluate, n=256 if q else 4000, strategy=scenarios),
+            Stage("edges", "hyp", evaluate, n=64 if q else 800, strategy=edge_scenarios),
             Stage("split", "hyp", evaluate, n=48 if q else 600, strategy=split_scenarios)]
